@@ -12,6 +12,9 @@ def _c33_classes(i, o):
         cls.append('cursor_preset')
     if any(op[0] == 1 and op[2] >= _KS - 3 for op in ops):
         cls.append('cursor_near_wrap')
+    if any(op[0] == 0 and (any(len(tx) > 3 and tx[3] != 0 for tx in op[3]) or (len(op[4]) > 2 and op[4][2] != 0))
+           for op in ops):
+        cls.append('executed_form(malleable fields set)')
     prev_t = None
     for op in ops:
         if op[0] != 0:
@@ -42,8 +45,10 @@ def _c33_classes(i, o):
                 continue
             if ob[0] == 1:
                 cls.append('compress_refused')
-            if ob[0] != 0 or len(ob) != 8:
+            if ob[0] != 0 or len(ob) != 9:
                 continue
+            if ob[5] == 0 and ob[6] == 1:
+                cls.append('same_ids_but_not_equal')
             nreg = sum(len(x) for x in ob[2])
             cls.append('new_keys=%s' % ('0' if nreg == 0 else '1-3' if nreg <= 3 else '4-19' if nreg < 20 else '20+'))
             keys = [k for tx in ob[1] for k in tx]
@@ -71,11 +76,43 @@ def _c33_classes(i, o):
 PROPS = {
     'C33': dict(
         id='C33', cluster='Compress', crate='h-compress', tag=33,
-        n={'quick': 400, 'thorough': 6000},
-        theorems=['accessible_at_registration'],
+        n={'quick': 400, 'thorough': 4000}, shard=100,
+        theorems=['roundtrip_history_partial', 'roundtrip_history_refuted', 'roundtrip_history_up_to_malleable',
+                  'roundtrip_from_empty', 'roundtrip_history_any', 'roundtrip_one_block', 'handed_out_key_decodes',
+                  'compress_step_invariant', 'next_key_terminates', 'next_key_fresh', 'next_key_fuel_is_adequate',
+                  'compress_never_refused', 'replay_core_sound', 'replay_checker_sound', 'model_trace_core_accepted',
+                  'model_trace_accepted', 'empty_registry_wf'],
         classify=_c33_classes,
-        rule='TODO',
-        assumptions=['TODO'],
+        rule='thorough tier only: bounded-exhaustive family of 2250 three-block histories over one keyspace (5 address pairs per block, time deltas {0,r,r+1}^2, cursor put back onto live keys or not). Both tiers: 7 directed histories (wrap-around inside one block, cursor put back onto live keys, expiry without refresh on reuse, '
+             'an expired value moving to a new key while its old key is overwritten in the same block, a block older than the '
+             'registry, retention 0, default values only) plus random histories of 2..9 (thorough 2..16) real blocks over a pool of '
+             '1..4 addresses / asset ids / contract ids / scripts / predicates per keyspace (plus the default value and occasional '
+             'fresh values), script transactions with contract / message-predicate / coin-predicate / signed-coin inputs and coin / '
+             'change / contract-created / variable / contract outputs and the mint transaction, block time deltas from '
+             '{0, 1, r-1, r, r+1, 2r+1} for retention r in {0,1,3,10,50} s (with and without sub-second part), every tenth history '
+             'with one block older than its predecessor, the evictor cursor preset through EvictorDb::set_latest_assigned_key to '
+             'MAX_WRITABLE, MAX_WRITABLE-1, -2 or onto small live keys (before and between blocks), one block in twelve with 8..22 '
+             '(thorough 20..60) transactions of mostly fresh values. Real compress() over CompressionContext and decompress() over '
+             'DecompressionContext (storage-backed TemporalRegistry / EvictorDb / HistoryLookup, in-memory stores, the compressed '
+             'block goes through postcard). Observed per block: the registry key of every substituted field, the registrations in '
+             'header order, decompression status, header equality, transaction equality and tx-id equality with the original, and the '
+             'sorted registry + timestamp + reverse-index tables of BOTH stores (+ the evictor cursor). one history in eight carries transactions in executed form (non-default malleable '
+             'compress(skip) fields: known finding K-C33-malleable). Pcheck replays the specification decompressor on the observed '
+             'compressed blocks (codes 2 spec cannot decode, 3 implementation decompressor wrong, 4 tables differ, 5 only exactness '
+             'of malleable fields fails). non-trivial = distinct history with a non-panic trace',
+        assumptions=['fuel-compression derive macros (Compress/Decompress of everything that is not Address, AssetId, ContractId, '
+                     'ScriptCode, PredicateCode) and postcard are trusted: the model sees a transaction as the list of its '
+                     'registry-substituted fields in traversal order',
+                     'fields marked compress(skip) decompress to their default (modelled as one malleable marker per transaction); '
+                     'exact equality is claimed only for transactions in prepared-for-signing form (roundtrip_history_partial), '
+                     'otherwise equality up to these fields = same transaction ids (roundtrip_history_up_to_malleable); coins point '
+                     'to one on-chain origin transaction with TxPointer::default()',
+                     'the reverse index of script / predicate code is keyed by SHA-256 of the bytes: no collisions among the values in use',
+                     'the iteration order of the HashMap of registrations is not determined by the block: it is read from the '
+                     'observed compressed block (hint) and the theorems hold for every order',
+                     'block timestamps non-decreasing (PoA rule) and fewer than 2^24-1 distinct values per keyspace and block for '
+                     'roundtrip_history; roundtrip_history_any needs neither',
+                     'registry, timestamp and index rows of one key are written together by write_registry (modelled as one table)'],
         profiles=['dev'],
         level='proof'),
 }
